@@ -21,13 +21,18 @@ func c05Gen(r *rand.Rand, tier string) []spec.Case {
 	}
 	for rep := 0; rep < reps; rep++ {
 		for _, cause := range c05Causes {
-			for _, launch := range []string{"cmd", "runner", "scripted"} {
+			for _, launch := range []string{"cmd", "runner", "scripted", "runner-ctx", "runner-ctx-slow"} {
 				if launch == "scripted" && strings.HasPrefix(cause, "crash-") {
 					continue
 				}
 				p := spec.C05Case{Cause: cause, Launch: launch, TimeoutMs: 600}
 				if rep > 0 {
 					p.JitterMs = r.Intn(150)
+				}
+				if launch == "runner-ctx-slow" && !strings.HasPrefix(cause, "crash-") {
+					// the failure is detected late in the start window and the runner's Kill takes
+					// longer than what is left of it
+					p.JitterMs = 350 + r.Intn(100)
 				}
 				out = append(out, spec.Case{Kind: cause, P: spec.MustJSON(p)})
 			}
@@ -96,7 +101,7 @@ func init() {
 		ID: "C05", Level: "fault_enumeration", Race: true, TestName: "TestC05",
 		Gen: c05Gen, Batch: 20, Children: 3, PerCase: 3 * time.Second, Base: 90 * time.Second,
 		Judge:       c05Judge,
-		Rule:        "enumerated failure causes (each handshake field invalid in turn, short/garbage line, bad line followed by more output, silence until timeout, partial line without newline, exit before output, stdout closed while alive, crash at two hook points inside Serve) x launch method (Cmd real process, custom runner around a real process, scripted in-process runner); thorough repeats each 10x with seeded output delay. Observed: /proc state of the launched pid at Start-return and while polling up to 5 s, runner Kill calls, Kill duration, reaping, temp dir listing. Class = cause/launch",
+		Rule:        "enumerated failure causes (each handshake field invalid in turn, short/garbage line, bad line followed by more output, silence until timeout, partial line without newline, exit before output, stdout closed while alive, crash at two hook points inside Serve) x launch method (Cmd real process, custom runner around a real process, the same with a Kill that honours its context (aborts when it is done) without and with a 400 ms grace period and the failure placed late in the start window, scripted in-process runner); thorough repeats each 10x with seeded output delay. Observed: /proc state of the launched pid at Start-return and while polling up to 5 s, runner Kill calls, Kill duration, reaping, temp dir listing. Class = cause/launch",
 		Assumptions: []string{"'shortly after' = within 5 s", "only causes that every reading of C01 rejects are used", "Kill counts as hung after 18 s (nominal 2-3 s)"},
 	})
 }
